@@ -409,6 +409,12 @@ func (b *levelBucket) Bucket(name string) db.Bucket {
 			err = nil
 		}
 	}
+	if !b.tx.readOnly && err == nil {
+		// deleted earlier in this transaction (and not created again)
+		if _, deleted := b.tx.b.Get(key); deleted {
+			return nil
+		}
+	}
 	if err != nil {
 		return nil
 	}
